@@ -43,6 +43,41 @@ def run(ctx, spec):
     return runner.finish(ctx, spec.get("level", "model_checking"), cov)
 
 
+def conformance_post(ctx, cov):
+    """Binds the broker model to the implementation it stands for: lib/brokerconf.sh explores every
+    script of a bounded alphabet on fakenats (all schedules) and replays it against nats.go + an
+    embedded nats-server; every real observation must be a model outcome. The result is recorded in
+    the evidence; it never changes the verdict on the property (a mismatch is a defect of the model,
+    printed as CONFORMANCE-MISMATCH, to be repaired in /verif)."""
+    s = ctx.mkscratch()
+    rep = os.path.join(s, "brokerconf.json")
+    try:
+        p = subprocess.run([os.path.join(VERIF, "lib", "brokerconf.sh"), ctx.tier, rep], env=GOENV, capture_output=True, text=True, timeout=3000)
+        out = (p.stdout or "") + (p.stderr or "")
+        r = json.load(open(rep)) if os.path.exists(rep) else None
+    except Exception as e:  # never let the binding step decide the property
+        cov["model_conformance"] = {"status": "not run: %s" % e}
+        return
+    if r is None:
+        cov["model_conformance"] = {"status": "not run", "output": out[-600:]}
+        return
+    keep = ("status", "scripts", "script_depth", "model_executions", "model_states", "model_transitions", "model_outcomes",
+            "real_runs", "real_distinct_observations", "real_runs_inconclusive", "server", "wall_s",
+            "scripts_where_zero_latency_submodel_misses_a_real_observation", "zero_latency_gap_examples")
+    mc = {k: r.get(k) for k in keep}
+    mc["model_capped_scripts"] = len(r.get("model_capped_scripts") or [])
+    mc["unexplained_once"] = (r.get("unexplained_once") or [])[:5]
+    mc["mismatches"] = (r.get("mismatches") or [])[:10]
+    mc["how"] = ("every script (subscribe / queue-subscribe / publish / request / unsubscribe / drain / flush / barrier / gated callback; all of length <= script_depth plus 8 longer ones shaped like lib/go's use) "
+                 "is explored on the model under vsched without a deviation bound (asynchronous-routing model; its zero-latency sub-model must only show outcomes of the full model) and run several times against the real client and server; "
+                 "each real observation (per-operation results + global callback log) must be one of the model's outcomes")
+    cov["model_conformance"] = mc
+    if mc["mismatches"]:
+        print("CONFORMANCE-MISMATCH: the broker model lacks behaviours of the real client/server:")
+        for m in mc["mismatches"]:
+            print("  " + m)
+
+
 def explore(ctx, spec):
     """Runs the harness scenarios, records violations in ctx and returns the coverage dict."""
     exe = build(ctx)
